@@ -113,7 +113,9 @@ def main():
         if not keep:
             run(f"git -C /repo worktree remove --force {wt}", "/")
             shutil.rmtree(base, ignore_errors=True)
-            run("rm -f /verif/bin/vcheck-????????* /verif/bin/vcheck-race-????????*", "/")
+            import hashlib
+            tag = hashlib.md5((wt + "\n").encode()).hexdigest()[:8]
+            run(f"rm -f /verif/bin/vcheck-{tag} /verif/bin/vcheck-race-{tag}", "/")
 
 
 if __name__ == "__main__":
